@@ -118,8 +118,10 @@ def native(x):
             return repr(x.td)
         if isinstance(x, dict):
             return repr(sorted((k, repr(v)) for k, v in x.items()))
-        if isinstance(x, (str, int)):
-            return repr(x if not isinstance(x, str) else str.__str__(x))
+        if isinstance(x, str):
+            return ["s", str.__str__(x)]          # the characters themselves (known-finding predicates look at them)
+        if isinstance(x, int):
+            return repr(x)
         if hasattr(x, "obj"):
             return repr(x.obj)
     except Exception as e:   # noqa: BLE001
